@@ -58,6 +58,29 @@ def dispatch (args : List String) : Option String :=
       match KeyPair.gen n st with
       | none => pure (tV "none")
       | some (kp, rest) => pure (join ([tV "ok"] ++ tKeyPair kp ++ [tN rest.length]))
+  -- Schnorr proofs (C08, C10, C11)
+  | ["cp-prove", h, gs, ms, bf, tbf, ts, c] => do
+      let b : CBuilder Fq Fq := CBuilder.mk' (ped (← parseFq h) (← parseList gs)) (← parseList ms) (← parseFq bf) (← parseFq tbf) (← parseList ts)
+      let p := b.respond (← parseFq c)
+      pure (join [tS p.C, tS p.T, tS p.zbf, tL p.zs])
+  | ["cp-verify", h, gs, cC, cT, zbf, zs, c] => do
+      let p : CProof Fq Fq := ⟨← parseFq cC, ← parseFq cT, ← parseFq zbf, ← parseList zs⟩
+      pure (tB (cpVerify (ped (← parseFq h) (← parseList gs)) p (← parseFq c)))
+  | ["srp-verify", g1, y1s, cC, cT, zbf, zs, c] => do
+      let pk := mkPk (← parseFq g1) (← parseList y1s) 0 0 []
+      let p : CProof Fq Fq := ⟨← parseFq cC, ← parseFq cT, ← parseFq zbf, ← parseList zs⟩
+      match srpVerify pk p (← parseFq c) with
+      | some v => pure (join [tV "some", tS v])
+      | none => pure (tV "none")
+  | ["sp-prove", g1, y1s, g2, x2, y2s, ms, s1, s2, bf, tbf, ts, r, c] => do
+      let pk := mkPk (← parseFq g1) (← parseList y1s) (← parseFq g2) (← parseFq x2) (← parseList y2s)
+      let b : SBuilder Fq Fq Fq := SBuilder.mk' pk (← parseList ms) ⟨← parseFq s1, ← parseFq s2⟩ (← parseFq bf) (← parseFq tbf) (← parseList ts) (← parseFq r)
+      let p := b.respond (← parseFq c)
+      pure (join [tS p.sig.s1, tS p.sig.s2, tS p.cp.C, tS p.cp.T, tS p.cp.zbf, tL p.cp.zs])
+  | ["sp-verify", g1, y1s, g2, x2, y2s, s1, s2, cC, cT, zbf, zs, c] => do
+      let pk := mkPk (← parseFq g1) (← parseList y1s) (← parseFq g2) (← parseFq x2) (← parseList y2s)
+      let p : SProof Fq Fq Fq := ⟨⟨← parseFq s1, ← parseFq s2⟩, ⟨← parseFq cC, ← parseFq cT, ← parseFq zbf, ← parseList zs⟩⟩
+      pure (tB (spVerify Fq.e pk p (← parseFq c)))
   | ["pk-validate", g1, y1s, g2, x2, y2s] => do
       let pk := mkPk (← parseFq g1) (← parseList y1s) (← parseFq g2) (← parseFq x2) (← parseList y2s)
       pure (tB (decide pk.Valid))
